@@ -789,3 +789,230 @@ pub fn run_c18(ctx: &Ctx) -> i32 {
     ev.extra.insert("scenarios_enumerated".into(), json!(total));
     ev.finish()
 }
+
+// ---------------------------------------------------------------------------
+// C16 socket leg: a peer that stalls - in any state of a request - never blocks the other connections
+
+pub const RULE_STALL: &str = "a case is one (runtime flavour, stalled-peer kind, number of stalled peers): the peers bring their connections into the state (in the middle of a header, of a within-limit body, of an oversized body being discarded, with responses they never read, after quiet commands, ...) and then go silent while keeping the socket open; an observer that connects afterwards must get five round trips (set, get, noop, incr, delete) answered; unanswered for 10 s while the stalled peers are pending is a violation (with the per-thread CPU consumption of the server for the diagnosis); non-trivial always; distinct by the case tuple";
+
+#[derive(Clone, Copy, Debug, PartialEq)]
+enum StallKind {
+    MidHeader,
+    MidBody,
+    OversizedHeaderOnly,
+    OversizedPartBody,
+    OversizedByteAtATime,
+    UnreadResponses,
+    AfterQuiet,
+    AfterLoud,
+}
+
+const STALLS: [StallKind; 8] = [
+    StallKind::MidHeader,
+    StallKind::MidBody,
+    StallKind::OversizedHeaderOnly,
+    StallKind::OversizedPartBody,
+    StallKind::OversizedByteAtATime,
+    StallKind::UnreadResponses,
+    StallKind::AfterQuiet,
+    StallKind::AfterLoud,
+];
+
+fn server_thread_cpu() -> Vec<(String, char, u64)> {
+    let mut out = vec![];
+    if let Ok(rd) = std::fs::read_dir("/proc/self/task") {
+        for e in rd.flatten() {
+            if let Ok(tid) = e.file_name().to_string_lossy().parse::<i32>() {
+                let comm = std::fs::read_to_string(format!("/proc/self/task/{}/comm", tid)).unwrap_or_default().trim().to_string();
+                if comm.starts_with("mcv-srv") || comm.starts_with("tokio-runtime") {
+                    if let Some((st, cpu)) = crate::gate::task_stat(tid) {
+                        out.push((format!("{}:{}", comm, tid), st, cpu));
+                    }
+                }
+            }
+        }
+    }
+    out
+}
+
+pub fn run_stall(ctx: &Ctx) -> i32 {
+    use std::io::Write;
+    install_quiet_panic_hook();
+    let mut ev0 = Evidence::new(ctx, "exploration", RULE_STALL);
+    ev0.assumptions = vec![
+        "in-process MemcacheTcpServer on loopback; receive timeout 60 s so that the stalled peers stay connected for the whole case".into(),
+        "wall clock only as a generous bound: a correct server answers the observer within milliseconds, the verdict threshold is 10 s".into(),
+    ];
+    let shared = Mutex::new(ev0);
+    let mut cases: Vec<(bool, StallKind, usize)> = vec![];
+    for multi in [false, true] {
+        for k in STALLS {
+            for n in if ctx.thorough() { vec![1usize, 2, 3, 6] } else { vec![1usize, 3] } {
+                cases.push((multi, k, n));
+            }
+        }
+    }
+    let next = AtomicU64::new(0);
+    std::thread::scope(|s| {
+        for _ in 0..ctx.workers.min(8) {
+            let (next, shared, cases) = (&next, &shared, &cases);
+            s.spawn(move || {
+                let mut local: BTreeMap<String, u64> = BTreeMap::new();
+                let mut evals = 0u64;
+                let mut fps = vec![];
+                loop {
+                    let c = next.fetch_add(1, Ordering::Relaxed) as usize;
+                    if c >= cases.len() {
+                        break;
+                    }
+                    if let Some(o) = ctx.only_case {
+                        if c as u64 != o {
+                            continue;
+                        }
+                    }
+                    let (multi, kind, npeers) = cases[c];
+                    let limit = 1024u32;
+                    let srv = match Server::start(SrvCfg { idle_s: 60, item_limit: limit, workers: if multi { Some(2) } else { None }, conn_limit: 64, ..Default::default() }) {
+                        Ok(s) => s,
+                        Err(e) => {
+                            shared.lock().unwrap().inconclusive.push(format!("server start failed: {}", e));
+                            continue;
+                        }
+                    };
+                    // a big value for the unread-responses peers
+                    if kind == StallKind::UnreadResponses {
+                        if let Ok(mut c0) = Cli::connect(srv.port) {
+                            let _ = ask(&mut c0, &wire::store(op::SET, b"big", &vec![b'v'; 900], 0, 0, 1, 0));
+                        }
+                    }
+                    let mut peers: Vec<Cli> = vec![];
+                    for p in 0..npeers {
+                        let mut c = match Cli::connect(srv.port) {
+                            Ok(c) => c,
+                            Err(_) => continue,
+                        };
+                        let key = format!("stall-{}", p).into_bytes();
+                        let over = wire::store(op::SET, &key, &vec![b'o'; 5000], 0, 0, 7, 0).encode();
+                        let within = wire::store(op::SET, &key, &vec![b'w'; 800], 0, 0, 7, 0).encode();
+                        let _ = match kind {
+                            StallKind::MidHeader => c.s.write_all(&within[..11 + p % 12]),
+                            StallKind::MidBody => c.s.write_all(&within[..24 + 100 + p]),
+                            StallKind::OversizedHeaderOnly => c.s.write_all(&over[..24]),
+                            StallKind::OversizedPartBody => c.s.write_all(&over[..24 + 1500 + p]),
+                            StallKind::OversizedByteAtATime => {
+                                let _ = c.s.write_all(&over[..24]);
+                                for b in &over[24..64] {
+                                    let _ = c.s.write_all(&[*b]);
+                                    std::thread::sleep(Duration::from_millis(2));
+                                }
+                                Ok(())
+                            }
+                            StallKind::UnreadResponses => {
+                                // far more response bytes than the socket buffers hold, never read
+                                let mut req = vec![];
+                                for i in 0..4000u32 {
+                                    wire::get(op::GET, b"big", i).encode_into(&mut req);
+                                }
+                                let _ = c.s.set_write_timeout(Some(Duration::from_millis(300)));
+                                c.s.write_all(&req)
+                            }
+                            StallKind::AfterQuiet => {
+                                let mut req = vec![];
+                                for i in 0..20u32 {
+                                    wire::store(op::SETQ, &key, b"q", 0, 0, i, 0).encode_into(&mut req);
+                                }
+                                c.s.write_all(&req)
+                            }
+                            StallKind::AfterLoud => {
+                                let _ = ask(&mut c, &wire::store(op::SET, &key, b"l", 0, 0, 1, 0));
+                                Ok(())
+                            }
+                        };
+                        peers.push(c);
+                    }
+                    std::thread::sleep(Duration::from_millis(60));
+                    let cpu0 = server_thread_cpu();
+                    let t0 = Instant::now();
+                    // the observer connects now: accept loop and request handling must both be alive
+                    let mut answered = 0usize;
+                    let mut trail: Vec<String> = vec![];
+                    if let Ok(mut obs) = Cli::connect_plain(srv.port) {
+                        let _ = obs.s.set_read_timeout(Some(Duration::from_millis(200)));
+                        let probes = [
+                            wire::store(op::SET, b"obs", b"1", 0, 0, 101, 0),
+                            wire::get(op::GET, b"obs", 102),
+                            wire::simple(op::NOOP, 103),
+                            wire::counter(op::INCR, b"obs", 1, 0, 0, 104, 0),
+                            wire::delete(op::DELETE, b"obs", 105, 0),
+                        ];
+                        for f in &probes {
+                            if obs.s.write_all(&f.encode()).is_err() {
+                                break;
+                            }
+                            let want = f.opaque;
+                            let t1 = Instant::now();
+                            let mut got = false;
+                            while t1.elapsed() < Duration::from_secs(10) {
+                                obs.read_frames(answered + 1, Duration::from_millis(100));
+                                if parse_prefix(&obs.rx).iter().any(|r| r.opaque == want) {
+                                    got = true;
+                                    break;
+                                }
+                                if obs.end != End::Open {
+                                    break;
+                                }
+                            }
+                            if !got {
+                                trail.push(format!("{} (opaque {}) unanswered after {:.1} s, connection {:?}", op::name(f.opcode), want, t1.elapsed().as_secs_f32(), obs.end));
+                                break;
+                            }
+                            answered += 1;
+                        }
+                    } else {
+                        trail.push("observer could not connect".into());
+                    }
+                    let waited = t0.elapsed();
+                    let cpu1 = server_thread_cpu();
+                    evals += 1;
+                    fps.push(fnv(format!("{}:{:?}:{}", multi, kind, npeers).as_bytes()));
+                    *local.entry(format!("stall:{:?}:observer_round_trips_answered", kind)).or_insert(0) += answered as u64;
+                    *local.entry("stall:observer_wait_ms_total".into()).or_insert(0) += waited.as_millis() as u64;
+                    if answered < 5 {
+                        let cpu: Vec<String> = cpu1
+                            .iter()
+                            .map(|(n, st, c1)| {
+                                let c0 = cpu0.iter().find(|x| x.0 == *n).map(|x| x.2).unwrap_or(*c1);
+                                format!("{} state {} +{} ticks", n, st, c1 - c0)
+                            })
+                            .collect();
+                        let burning = cpu1.iter().any(|(n, _, c1)| cpu0.iter().find(|x| x.0 == *n).map(|x| c1 - x.2 > 300).unwrap_or(false));
+                        shared.lock().unwrap().violation(
+                            Viol::new(
+                                &["C16", "C10"],
+                                if burning { "stalled-peer-spins-server" } else { "stalled-peer-blocks-others" },
+                                format!(
+                                    "{} peer(s) stalled {:?} on a {} server: the observer got {} of 5 round trips answered ({}); server threads during the wait: {:?}",
+                                    npeers,
+                                    kind,
+                                    if multi { "2-worker" } else { "current-thread" },
+                                    answered,
+                                    trail.join("; "),
+                                    cpu
+                                ),
+                            ),
+                            json!({"engine":"stall","case":c,"kind":format!("{:?}",kind),"peers":npeers,"multi_thread":multi,"answered":answered,"threads":cpu,"replay_cmd":format!("/verif/check C16 replay --case {}", c)}),
+                        );
+                    }
+                    drop(peers);
+                }
+                let mut e = shared.lock().unwrap();
+                e.evaluations += evals;
+                e.merge_counters(&local);
+                for f in fps {
+                    e.nontrivial.insert(f);
+                }
+            });
+        }
+    });
+    shared.into_inner().unwrap().finish()
+}
